@@ -164,6 +164,18 @@ CHECKS["C10"] = dict(
     technique="TLA+ model checking incl. liveness (TLC) + differential behaviour replay + TLC trace validation",
     design="6/C10")
 
+CHECKS["C11"] = dict(
+    level="model_checking",
+    text="TLC checks, for every chunking of the output, buffer capacity and byte offset at which the device starts refusing writes, that "
+         "the flush-then-test-then-report profile never exits 0 with unaccepted output and always reports failure (and that the "
+         "unchecked profiles do violate it, so the requirement is not vacuous); every command of dfs and bbcbasic_to_text is run with "
+         "stdout limited by RLIMIT_FSIZE to k bytes (0, 1, stdio buffer boundaries, L/2, L-1, L; dense sweeps in thorough), to /dev/full "
+         "and to a closed pipe, and extract-files/extract-unused with the limit on each created file; TraceOutStream.tla judges every "
+         "observation (bytes accepted, exit status, diagnostic).",
+    note="Fault injection by RLIMIT_FSIZE (EFBIG) stands for any refusing device; stdout as regular file, character device and pipe.",
+    technique="TLA+ model checking (TLC) + fault-injection replay + TLC trace validation",
+    design="6/C11")
+
 PENDING_REASON = "check not built yet in this session (work in progress; design in DESIGN.md section 6)"
 
 
